@@ -37,6 +37,8 @@ def registry_run(ctx, args, name):
     if v["online"] != 0:
         ctx.violation("key-still-registered-after-all-connections-ended", "%d keys online at the end" % v["online"], {"kind": "registry-trace"})
     for e in events:
+        if e["ev"] == "assert" and not e["ok"]:
+            ctx.violation("%s" % e["what"], "live-c11: %s" % json.dumps(e)[:400], {"kind": "registry-trace", "event": e})
         if e["ev"] == "rejoin" and not e["ok"]:
             ctx.violation("key-not-free-after-disconnect", "key %s could not be taken by a new connection" % e["key"], {"kind": "registry-trace"})
     return events
